@@ -4,9 +4,13 @@
 package c05
 
 import (
+	"bytes"
+	"compress/gzip"
 	"encoding/json"
 	"fmt"
+	"mime/multipart"
 	"os"
+	"runtime"
 	"strings"
 	"sync"
 	"sync/atomic"
@@ -95,6 +99,7 @@ func Main(c *run.Ctx) {
 	c.Floor("multi-portion bodies pushed while another client pushes", c.Pick(100, 300), 0)
 	c.Floor("multi-portion bodies uploaded slowly while every INSERT fails", c.Pick(10, 200), 0)
 	c.Floor("bursts of eight clients pushing bodies with label names never seen before", c.Pick(50, 500), 0)
+	c.Floor("inflating uploads (256 KiB on the wire, 256 MiB inflated) with the allocation meter read around them", c.Pick(50, 500), 0)
 }
 
 func routeOf(h gen.HostileCase) string {
@@ -323,6 +328,25 @@ func Child(c *run.Ctx, name string) {
 			canaries = append(canaries, burst...)
 			c.Floor("bursts of eight clients pushing bodies with label names never seen before", 0, 1)
 		}
+		if gi%100 == 66 {
+			// an upload that inflates: a well-formed multipart /ingest request whose gzip'd profile part is 256 KiB on the
+			// wire and 256 MiB of zeros once inflated. The writer refuses uploads of more than 100 000 bytes uncompressed;
+			// refusing must not mean inflating the whole part first (the process is ended by the kernel long before a
+			// real bomb of this ratio is through). Monitor: bytes allocated by the process while the request is handled.
+			inflOnce.Do(func() { inflReq = inflatingUpload(256 << 20) })
+			rq := inflReq
+			var m0, m1 runtime.MemStats
+			runtime.ReadMemStats(&m0)
+			brec := sess.Send(1, &rq)
+			runtime.ReadMemStats(&m1)
+			grown := m1.TotalAlloc - m0.TotalAlloc
+			c.Floor("inflating uploads (256 KiB on the wire, 256 MiB inflated) with the allocation meter read around them", 0, 1)
+			c.Cover("inflating upload", fmt.Sprintf("answered %dxx, %d MiB allocated meanwhile", brec.Status/100, grown>>20), 1)
+			if grown > 64<<20 {
+				c.Violation("inflating-upload/held-in-memory", fmt.Sprintf("a multipart /ingest upload of %d bytes whose profile part inflates to 256 MiB was answered %d, and the process allocated %d MiB while handling it (bound: 64 MiB; the limit the decompressor enforces is 100 000 bytes): the part is inflated in full before its size is looked at",
+					len(rq.Body), brec.Status, grown>>20), map[string]any{"case_index": gi, "stage": "inflating-upload", "allocated": grown, "status": brec.Status})
+			}
+		}
 		rec := sess.Send(1, &hc.Req)
 		timedOut := func(e string) bool {
 			return strings.Contains(e, "Client.Timeout") || strings.Contains(e, "deadline exceeded")
@@ -471,4 +495,27 @@ func clipS(s string, n int) string {
 		return s[:n] + "…"
 	}
 	return s
+}
+
+var (
+	inflOnce sync.Once
+	inflReq  gen.Request
+)
+
+// inflatingUpload: a multipart /ingest request whose "profile" part is a gzip stream of n zero bytes.
+func inflatingUpload(n int) gen.Request {
+	var gzbuf bytes.Buffer
+	gz, _ := gzip.NewWriterLevel(&gzbuf, gzip.BestCompression)
+	zeros := make([]byte, 1<<20)
+	for w := 0; w < n; w += len(zeros) {
+		gz.Write(zeros)
+	}
+	gz.Close()
+	var body bytes.Buffer
+	mw := multipart.NewWriter(&body)
+	fw, _ := mw.CreateFormFile("profile", "profile.pprof")
+	fw.Write(gzbuf.Bytes())
+	mw.Close()
+	return gen.Request{Proto: "pprof-multipart", Method: "POST", Path: "/ingest?name=inflate%7Brid%3Dinflate%7D&from=1700000000&until=1700000010",
+		ContentType: mw.FormDataContentType(), Body: body.Bytes()}
 }
